@@ -398,7 +398,7 @@ Plan plan_C07(Rng& r, const std::string&) {
 		BG g(r, c); int ep = r.range(1, 3);
 		for (int e = 0; e < ep; ++e) {
 			TA A, B;
-			if (r.chance(1, 4)) A = gen::wide_pair_smaller(r, B);      // children positions with several macro-states
+			if (r.chance(1, 4)) A = r.chance(1, 2) ? gen::wide_pair_smaller(r, B) : gen::repeat_pair_smaller(r, B);      // child positions with several macro-states
 			else gen::gen_incl_pair(r, pool, r.range(1, 5), false, A, B);
 			// the same pair in both encodings
 			int abu = g.load(A, true), bbu = g.load(B, true), atd = g.load(A, false), btd = g.load(B, false);
